@@ -12,6 +12,7 @@ package scen
 
 import (
 	"context"
+	"encoding/base64"
 	"encoding/json"
 	"fmt"
 	"math/rand"
@@ -29,12 +30,17 @@ func init() { Register("c11sweep", c11Sweep) }
 
 var c11Factors = [][]string{
 	{"sample", "slow", "dataset", "datasetLatest", "union", "multi", "http"}, // source
-	{"none", "js1", "js3", "http", "js5"},                                            // transform
+	// transform; the last four are degenerate blocks that Scheduler.AddJob accepts: JavascriptTransform
+	// without Code / with empty Code (runs as if there were no transform), with Code that defines
+	// no transform_entities function, HttpTransform without Url
+	{"none", "js1", "js3", "http", "js5", "jsNoCode", "jsEmptyCode", "jsNoFunc", "httpNoUrl"},
 	{"dataset", "devnull", "console", "http"},                                 // sink
 	{"cron", "onchange"},                                                      // trigger
 	{"incremental", "fullsync"},                                               // job type
 	{"none", "log", "rerun", "log+rerun", "requeue"},                          // error handlers
-	{"none", "fail"},                                                          // fault
+	// fault; the stall values need an HttpDatasetSource: its remote end stalls (never answers /
+	// stops in the middle of the body) and the run is killed while it stalls
+	{"none", "fail", "stallHeaders", "stallBody"},
 }
 
 type c11Cfg struct {
@@ -90,9 +96,30 @@ func c11CfgFromKey(k string) (c11Cfg, error) {
 
 // faultPlace says where the injected failure of a configuration sits (first building
 // block, from the sink backwards, that can be made to fail), "" when none can.
+func (c c11Cfg) degenerateTransform() bool {
+	switch c.Transform {
+	case "jsNoCode", "jsEmptyCode", "jsNoFunc", "httpNoUrl":
+		return true
+	}
+	return false
+}
+
 func (c c11Cfg) faultPlace() string {
-	if c.Fault != "fail" {
+	switch c.Fault {
+	case "stallHeaders", "stallBody":
+		if c.Source == "http" && !c.degenerateTransform() {
+			if c.Fault == "stallHeaders" {
+				return "source-stalls-before-headers+kill"
+			}
+			return "source-stalls-mid-body+kill"
+		}
 		return ""
+	case "fail":
+	default:
+		return ""
+	}
+	if c.degenerateTransform() {
+		return "" // degenerate transform blocks are swept without an injected fault
 	}
 	switch {
 	case c.Source == "slow":
@@ -101,7 +128,7 @@ func (c c11Cfg) faultPlace() string {
 		return "sink-rejects-entity"
 	case c.Transform == "http":
 		return "transform-400"
-	case strings.HasPrefix(c.Transform, "js"):
+	case c.Transform == "js1" || c.Transform == "js3" || c.Transform == "js5":
 		return "transform-throws"
 	case c.Source == "http":
 		return "source-500"
@@ -139,7 +166,7 @@ func c11AllConfigs() []c11Cfg {
 	rec = func(f int) {
 		if f == len(c11Factors) {
 			c := c11CfgOf(ix)
-			if c.Fault == "fail" && c.faultPlace() == "" {
+			if c.Fault != "none" && c.faultPlace() == "" {
 				return
 			}
 			out = append(out, c)
@@ -249,8 +276,19 @@ func c11Sweep(ctx *Ctx) error {
 			r := rand.New(rand.NewSource(base))
 			r.Shuffle(len(chosen), func(i, j int) { chosen[i], chosen[j] = chosen[j], chosen[i] })
 		} else {
+			// t-wise cover of the regular building blocks + pairwise cover of the definitions with a
+			// degenerate transform block (each degenerate block meets every value of every other factor)
 			t, _ := strconv.Atoi(ctx.Arg("cover", "3"))
-			chosen = c11Cover(all, t, rand.New(rand.NewSource(base)))
+			var regular, degen []c11Cfg
+			for _, c := range all {
+				if c.degenerateTransform() {
+					degen = append(degen, c)
+				} else {
+					regular = append(regular, c)
+				}
+			}
+			chosen = c11Cover(regular, t, rand.New(rand.NewSource(base)))
+			chosen = append(chosen, c11Cover(degen, 2, rand.New(rand.NewSource(base+1)))...)
 		}
 		for i, c := range chosen {
 			if i%shards == idx%shards {
@@ -381,7 +419,14 @@ func c11JobConfig(cfg c11Cfg, id string, h *c11Hub, loop *c11Loop) map[string]an
 		source = map[string]any{"Type": "MultiSource", "Name": srcName, "Dependencies": []any{map[string]any{"dataset": "dep",
 			"joins": []any{map[string]any{"dataset": srcName, "predicate": h.prefix + ":ref", "inverse": false}}}}}
 	case "http":
-		source = map[string]any{"Type": "HttpDatasetSource", "Url": loop.url() + "/src/" + id + "/" + mode("source-500")}
+		m := mode("source-500")
+		switch place {
+		case "source-stalls-before-headers+kill":
+			m = "stallh"
+		case "source-stalls-mid-body+kill":
+			m = "stallb"
+		}
+		source = map[string]any{"Type": "HttpDatasetSource", "Url": loop.url() + "/src/" + id + "/" + m}
 	}
 	var transform map[string]any
 	switch cfg.Transform {
@@ -393,6 +438,14 @@ func c11JobConfig(cfg c11Cfg, id string, h *c11Hub, loop *c11Loop) map[string]an
 		transform = map[string]any{"Type": "JavascriptTransform", "Parallelism": 5, "Code": c11JS(id, 2000, place == "transform-throws")}
 	case "http":
 		transform = map[string]any{"Type": "HttpTransform", "Url": loop.url() + "/tr/" + id + "/" + mode("transform-400")}
+	case "jsNoCode":
+		transform = map[string]any{"Type": "JavascriptTransform"}
+	case "jsEmptyCode":
+		transform = map[string]any{"Type": "JavascriptTransform", "Code": "", "Parallelism": 3}
+	case "jsNoFunc":
+		transform = map[string]any{"Type": "JavascriptTransform", "Parallelism": 1, "Code": base64.StdEncoding.EncodeToString([]byte("var c11_nothing = 1;"))}
+	case "httpNoUrl":
+		transform = map[string]any{"Type": "HttpTransform"}
 	}
 	var sink map[string]any
 	switch cfg.Sink {
@@ -547,6 +600,7 @@ func c11RunOne(ctx *Ctx, cfg c11Cfg) (rerr error) {
 			}
 		}
 	}
+	var killSeq int64 // logical time at which the last KillJob returned (0 = none)
 	// wait until at least `want` runs have given their slot back; decide what a watchdog means
 	waitEnded := func(want int, what string) bool {
 		// the watchdog is split into slices; after each slice the STATE of the runs that have not
@@ -559,6 +613,12 @@ func c11RunOne(ctx *Ctx, cfg c11Cfg) (rerr error) {
 			if n := c11JudgeStuck(h, viol); n > 0 {
 				o.Stat("sweep.runs_blocked_forever", int64(n))
 				return false
+			}
+			if killSeq > 0 {
+				if n := c11JudgeNetAfterKill(h, loop, id, killSeq, viol); n > 0 {
+					o.Stat("sweep.killed_runs_parked_in_http_read", int64(n))
+					return false
+				}
 			}
 		}
 		// something is stuck: a run whose pipeline reported its outcome and whose result is stored
@@ -625,10 +685,31 @@ func c11RunOne(ctx *Ctx, cfg c11Cfg) (rerr error) {
 				o.Stat("sweep.kill_issued", 1)
 			}
 		}
+		if strings.HasPrefix(place, "source-stalls") {
+			// kill the run while the remote end of its source stalls
+			if rec.waitFor(c11Watchdog, func() bool {
+				if loop.stalledNow(id) == 0 {
+					return false
+				}
+				for _, r := range rec.open {
+					if r.ID == id {
+						return true
+					}
+				}
+				return false
+			}) {
+				h.sched.KillJob(id)
+				killSeq = c11Tick()
+				o.Stat("sweep.kill_issued_while_source_stalls", 1)
+			} else {
+				o.Stat("sweep.stall_not_reached", 1)
+			}
+		}
 		okSoFar = waitEnded(before+1, fmt.Sprintf("round-%d", round))
 		o.Ack(caseID, n, nil)
 		judge()
 	}
+	loop.stopStalling() // held requests are let go, the stall endpoints answer from now on
 
 	// drain: stop the trigger (cron: pause = remove the cron entries), let retries finish
 	n = step("drain", nil)
